@@ -97,10 +97,14 @@ def struct_mutation(kind, msg, ch, ver, ctxinfo):
                           if x.extType != 0] + [e]
         return [msg]
     if kind == "psk_empty" and name == "ClientHello":
-        which = ch.draw(3, "mu.psk")
+        which = ch.draw(5, "mu.psk")
         data = {0: bytearray([0, 0, 0, 0]),
                 1: bytearray([0, 6, 0, 0, 0, 0, 0, 0, 0, 0]),
-                2: bytearray([0, 7, 0, 1, 65, 0, 0, 0, 0, 0, 0])}[which]
+                2: bytearray([0, 7, 0, 1, 65, 0, 0, 0, 0, 0, 0]),
+                # empty identity with a binder / identity with empty binder
+                3: bytearray([0, 6, 0, 0, 0, 0, 0, 0, 0, 33, 32]) +
+                bytearray(32),
+                4: bytearray([0, 7, 0, 1, 65, 0, 0, 0, 0, 0, 1, 0])}[which]
         e = TLSExtension(extType=41).create(data)
         exts = [x for x in (msg.extensions or []) if x.extType != 41]
         if not any(x.extType == 45 for x in exts):
